@@ -26,7 +26,10 @@ impl LintPass for GarbageInputValueCheck {
                 }
             } else if let Some(func) = node.is_function_entry_with_func() {
                 let args = func.arguments();
-                let garbage = node.live_in() - args - Register::callee_saved_set();
+                // The entry node itself kills the caller-saved registers, so they
+                // never show up in its live-in set: what the body reads before
+                // writing is what is live *out* of the entry.
+                let garbage = node.live_out() - args - Register::callee_saved_set();
                 if !garbage.is_empty() {
                     let mut ranges = Vec::new();
                     for reg in &garbage {
